@@ -115,6 +115,13 @@ def Reachable (e : Env) (s : St) : Prop := ∃ h, s = run e initSt h
 in every reachable state (a consequence of the container invariant of C06) -/
 def CacheCoherent (e : Env) : Prop := ∀ s, Reachable e s → CachesEqv (reload s.raw) s.c
 
+/-- reachable from a fresh container by a history whose operations all satisfy `P` -/
+def ReachableP (P : Op → Prop) (e : Env) (s : St) : Prop := ∃ h, (∀ op ∈ h, P op) ∧ s = run e initSt h
+
+/-- `CacheCoherent` restricted to histories over operations satisfying `P` -/
+def CacheCoherentOn (P : Op → Prop) (e : Env) : Prop :=
+  ∀ s, ReachableP P e s → CachesEqv (reload s.raw) s.c
+
 /-! ## Abstract raw driver -/
 
 /-- An abstract raw driver with state space `D`. `view` is the raw tree a reader sees
